@@ -131,6 +131,7 @@ pub struct ScenN<const N: usize> {
     snap: HashMap<String, Vec<u8>>,
     snap_ids: std::collections::BTreeSet<usize>,
     conc_prev: Vec<ConcEv>,
+    conc_pool: Vec<Vec<u8>>,
     conc_clock: u64,
     conc_ts: u64,
 }
@@ -175,7 +176,7 @@ impl<const N: usize> ScenN<N> {
                 .build()
                 .unwrap()
         };
-        ScenN { rt, st: None, cfg, dir, data: HashMap::new(), dead: None, keys: Default::default(), snap: HashMap::new(), snap_ids: Default::default(), conc_prev: Vec::new(), conc_clock: 1, conc_ts: 1000 }
+        ScenN { rt, st: None, cfg, dir, data: HashMap::new(), dead: None, keys: Default::default(), snap: HashMap::new(), snap_ids: Default::default(), conc_prev: Vec::new(), conc_pool: Vec::new(), conc_clock: 1, conc_ts: 1000 }
     }
 
     fn builder(&self) -> Builder {
@@ -511,14 +512,22 @@ impl<const N: usize> ScenN<N> {
             Some(s) => Arc::new(s),
             None => return "err NoStorage".into(),
         };
-        // key pool: keys already used in the scenario plus a few fresh ones
-        let mut pool: Vec<Vec<u8>> = Vec::new();
-        for i in 0..4u8 {
-            let mut k = vec![0xc0u8; N];
-            k[N - 1] = i;
-            pool.push(k);
+        // key pool: four keys that no script-level `w` / `d` of this scenario has touched (the history of the
+        // concurrent runs must account for every record of these keys); fixed at the first run of the scenario
+        if self.conc_pool.is_empty() {
+            for i in 0..=255u8 {
+                let mut k = vec![0xc0u8; N];
+                k[N - 1] = i;
+                let hex: String = k.iter().map(|b| format!("{:02x}", b)).collect();
+                if !self.keys.contains(&hex) {
+                    self.conc_pool.push(k);
+                }
+                if self.conc_pool.len() == 4 {
+                    break;
+                }
+            }
         }
-        let pool = Arc::new(pool);
+        let pool = Arc::new(self.conc_pool.clone());
         // clocks and timestamps continue across the concurrent runs of one scenario
         let clock = Arc::new(AtomicU64::new(self.conc_clock.max(1)));
         let tsgen = Arc::new(AtomicU64::new(self.conc_ts.max(1_000)));
@@ -1543,7 +1552,7 @@ impl<const N: usize> ScenN<N> {
             return "bad-op".into();
         }
         if (toks[0] == "w" || toks[0] == "d") && toks.len() > 1 {
-            self.keys.insert(toks[1].to_string());
+            self.keys.insert(toks[1].to_lowercase());
         }
         if toks[0] == "snap" {
             return self.snapshot();
